@@ -6,10 +6,14 @@ PROPS["C06"] = {
     "level_note": "smoke",
     "rule": "smoke",
     "assumptions": [],
-    "units": [{
-        "pkg": "curve/scalar", "configs": ALL4,
-        "tests": {
-            "TestC06Smoke": T(3000, 30000, kind="diff"),
-        },
-    }],
+    "units": [
+        {"pkg": "curve/scalar", "configs": ALL4, "tests": {"TestC06Scalar": T(6000, 300000, kind="diff")}},
+        {"pkg": "internal/field", "configs": ALL4, "tests": {"TestC06Field": T(6000, 300000, kind="diff")}},
+        {"pkg": "internal/strobe", "configs": ALL4, "tests": {"TestC06Strobe": T(3000, 150000, kind="diff")}},
+        {"pkg": "curve", "configs": ALL4, "tests": {
+            "TestC06Edwards": T(4000, 200000, kind="diff"),
+            "TestC06Ristretto": T(3000, 150000, kind="diff"),
+            "TestC06Multiscalar": T(1600, 60000, kind="diff"),
+        }},
+    ],
 }
